@@ -151,6 +151,8 @@ func main() {
 	fresh := flag.Int("fresh", 0, "execute the first N runs of this worker in a fresh child process each")
 	flag.String("tier", "quick", "quick | thorough")
 	verbose := flag.Bool("v", false, "verbose")
+	profileAlways := flag.Bool("profile", false, "profile kinds even for a single run")
+	flag.BoolVar(&freshChild, "fresh-child", false, "this process executes one run in fresh library state (first-use scenarios)")
 	flag.BoolVar(&ownStrategy, "own-strategy", false, "replay: ignore recorded decisions, use the scenario's seeded strategy")
 	flag.Parse()
 
@@ -158,6 +160,14 @@ func main() {
 	debug.SetMaxStack(256 << 20)
 	simrt.StartWatchdog(60 * time.Second)
 
+	// fresh-process children (one run, library state as initialised) must not execute library
+	// code before the run: they use uniform kind weights, and since they generate their own
+	// scenario from (seed, index) the parent never needs to agree with them
+	// (replay and minimisation work on explicit scenarios and must not touch the library before
+	// the run either)
+	if *mode == "gen" || (*mode == "run" && (*count > 1 || *fresh > 0 || *profileAlways)) {
+		profileKinds()
+	}
 	switch *mode {
 	case "gen":
 		b, _ := json.MarshalIndent(genFor(*prop, *seed, *from), "", " ")
@@ -216,7 +226,7 @@ func worker(prop string, base uint64, from, count, stride int, limit float64, de
 				break
 			}
 			tmp.Close()
-			args := []string{"-mode", "run", "-property", prop, "-seed", strconv.FormatUint(base, 10), "-from", strconv.Itoa(i), "-count", "1", "-out", tmp.Name()}
+			args := []string{"-mode", "run", "-property", prop, "-seed", strconv.FormatUint(base, 10), "-from", strconv.Itoa(i), "-count", "1", "-fresh-child", "-out", tmp.Name()}
 			if det {
 				args = append(args, "-det")
 			}
